@@ -1720,7 +1720,13 @@ impl<'a> Gen<'a> {
         if r < self.p.p_reorg {
             let lo = h.saturating_sub(12);
             let mostly_ok_lo = h.saturating_sub(W).max(self.max_ever.saturating_sub(W));
-            let n = if self.rng.chance(3, 4) && mostly_ok_lo <= h { self.rng.range(mostly_ok_lo, h) } else { self.rng.range(lo, h + 1) };
+            // the edges of the window matter most: the deepest admissible target, and the first one refused
+            let n = match self.rng.below(8) {
+                0 | 1 if mostly_ok_lo <= h => mostly_ok_lo,
+                2 if mostly_ok_lo >= 1 => mostly_ok_lo - 1,
+                3..=6 if mostly_ok_lo <= h => self.rng.range(mostly_ok_lo, h),
+                _ => self.rng.range(lo, h + 1),
+            };
             self.out.push(Op::Reorg(n));
             let accepted = n <= h && h - n <= W && (n == h || self.max_ever <= n + W);
             if accepted && n < h {
